@@ -28,7 +28,8 @@ for p in S.A64_PREFIXES:
     for n in S.A64_NUMBERS:
         for pp in (p, p.upper()):
             regs.append(((pp, n), R(prefix=pp, name=n), S.a64_family(pp, n)))
-regs.append((("x", "sp"), R(prefix="x", name="sp"), S.a64_family("x", "sp")))
+for nm in ("sp", "SP"):  # the stack pointer alias, in either spelling (memory bases keep the spelling of the source)
+    regs.append((("x", nm), R(prefix="x", name=nm), S.a64_family("x", "sp")))
 for a, ra, fa in regs:
     for b, rb, fb in regs:
         try:
@@ -38,6 +39,25 @@ for a, ra, fa in regs:
         Rp.case(("a64", fa[0], fb[0], fa[1] == fb[1]), sample=dict(isa="aarch64", a=a, b=b, dependent=got))
         if got != (fa == fb):
             bad.setdefault(("a64", fa[0], fb[0]), (a, b, got))
+# ---- the answer is a function of the two operands' VALUES, not of the objects or of what was asked before: a seeded sample of
+# pairs is asked again with freshly created (and immediately released) operand objects, in another order
+import random, gc
+rnd = random.Random(A.seed + 12)
+for isa_, parser_, mk, table, famf in (("x86", px, lambda a: R(name=a), names, lambda a: S.x86_family(a)),
+                                        ("a64", pa, lambda a: R(prefix=a[0], name=a[1]), [r[0] for r in regs], lambda a: S.a64_family(a[0], a[1]))):
+    sample = [(rnd.choice(table), rnd.choice(table)) for _ in range(3000)]
+    sample += [(a, a) for a in rnd.sample(table, min(200, len(table)))]
+    for a, b in sample:
+        try:
+            got = bool(parser_.is_reg_dependend_of(mk(a), mk(b)))  # temporaries: released right after the call
+        except Exception as e:
+            got = repr(e)
+        fa, fb = famf(a), famf(b)
+        Rp.case((isa_, "fresh", fa if isa_ == "x86" else fa[0], fb if isa_ == "x86" else fb[0], fa == fb), nontrivial=False)
+        if got != (fa == fb):
+            Rp.fail(f"C12/pairs/{isa_}-fresh-objects", f"{isa_}:fresh-objects", f"is_reg_dependend_of({a},{b}) = {got} when asked again with fresh operand objects, architectural overlap = {fa == fb}",
+                    dict(replay="c12_x86" if isa_ == "x86" else "c12_a64", args=dict(a=a, b=b)))
+    gc.collect()
 for k, (a, b, got) in bad.items():
     isa = k[0]
     Rp.fail(f"C12/pairs/{isa}", f"{'x86' if isa == 'x86' else 'a64'}:{k[1]}/{k[2]}", f"is_reg_dependend_of({a},{b}) = {got}, architectural overlap = {k[1] == k[2] if isa == 'x86' else None}",
